@@ -126,6 +126,39 @@ Proof.
   rewrite IH. destruct (memN (rt_id q) ts); reflexivity.
 Qed.
 
+Lemma roster_activate_in ts ros r :
+  In r (roster_activate ts ros) ->
+  exists q, In q ros /\ rt_id r = rt_id q /\ rt_env r = rt_env q.
+Proof.
+  unfold roster_activate. rewrite in_map_iff. intros [q [E Hq]]. exists q.
+  split; [exact Hq|]. destruct (memN (rt_id q) ts); subst r; cbn; split; reflexivity.
+Qed.
+
+Lemma roster_activate_in_roster t ts ros :
+  in_roster t (roster_activate ts ros) = in_roster t ros.
+Proof.
+  unfold in_roster, roster_activate. induction ros as [|q ros IH]; cbn; [reflexivity|].
+  rewrite IH. destruct (memN (rt_id q) ts); reflexivity.
+Qed.
+
+Lemma master_state_in ts s m x :
+  In x (master_state ts s m) ->
+  exists y, In y m /\ mt_id x = mt_id y /\ mt_fw x = mt_fw y /\ mt_alive x = mt_alive y /\
+            (mt_state x = mt_state y \/ mt_state x = s).
+Proof.
+  unfold master_state. rewrite in_map_iff. intros [y [E Hy]]. exists y. split; [exact Hy|].
+  destruct (memN (mt_id y) ts && mt_alive y) eqn:C; subst x; cbn.
+  - apply andb_true_iff in C. destruct C as [_ A]. rewrite A. auto.
+  - auto.
+Qed.
+
+Lemma held_state_live s : memN (held_state s) mesos_live_states = true.
+Proof.
+  unfold held_state. destruct (N.eqb s mesos_starting || N.eqb s mesos_running) eqn:E.
+  - apply orb_true_iff in E. destruct E as [E|E]; apply N.eqb_eq in E; subst s; vm_compute; reflexivity.
+  - vm_compute. reflexivity.
+Qed.
+
 Lemma release_in e ros r :
   In r (release e ros) ->
   exists q, In q ros /\ rt_id r = rt_id q /\ rt_active r = rt_active q /\
@@ -213,6 +246,21 @@ Proof.
   cbn. split; [exact H2|]. apply Forall_app. split; assumption.
 Qed.
 
+Lemma fw_all_master_state f ts s m : fw_all f m -> fw_all f (master_state ts s m).
+Proof.
+  intros H t Ht. apply master_state_in in Ht. destruct Ht as [y [Hy [_ [E _]]]].
+  rewrite E. apply H. exact Hy.
+Qed.
+
+Lemma inv1_create_held w k s :
+  Inv1 w -> Inv1 (fst (create_held w k s)) /\ Forall call_id1 (snd (create_held w k s)).
+Proof.
+  intro H. unfold create_held. destruct (inv1_create w k H) as [H1 C1].
+  destruct (create w k) as [w1 c1]. cbn [fst snd] in *. split; [|exact C1].
+  destruct H1 as [F [M [S A]]]. unfold Inv1. cbn. repeat split; try assumption.
+  apply fw_all_master_state. exact A.
+Qed.
+
 Lemma inv1_destroy w e keep eff :
   Inv1 w -> Inv1 (fst (destroy w e keep eff)) /\ Forall call_id1 (snd (destroy w e keep eff)).
 Proof.
@@ -283,6 +331,12 @@ Proof.
     destruct (inv1_subscribe (crash w1) (inv1_crash w1 H1)) as [H2 C2]. rewrite E2 in H2, C2.
     cbn. split; [exact H2|]. apply Forall_app. split; assumption.
   - apply inv1_answer. exact H.
+  - apply inv1_create_held. exact H.
+  - destruct (alive_at t (w_master w)); [|split; [exact H|constructor]].
+    destruct H as [F [M [S A]]]. cbn. split; [|constructor]. repeat split; try assumption.
+    apply fw_all_master_state. exact A.
+  - destruct (alive_at t (w_master w)); [|split; [exact H|constructor]].
+    destruct H as [F [M [S A]]]. cbn. split; [|constructor]. repeat split; assumption.
 Qed.
 
 Lemma inv1_boot : Inv1 (boot true).
@@ -353,6 +407,18 @@ Proof.
   - apply in_map_iff in H. destruct H as [x [E _]]. inversion E. reflexivity.
 Qed.
 
+Lemma create_held_fields w k s :
+  let w1 := fst (create_held w k s) in
+  w_failover w1 = w_failover w /\ w_store w1 = w_store w /\ w_nextfw w1 = w_nextfw w /\
+  w_mem w1 = w_mem w /\ w_pending w1 = w_pending w.
+Proof. unfold create_held, create. cbn. repeat split. Qed.
+
+Lemma create_held_launches w k s t f : In (CLaunch t f) (snd (create_held w k s)) -> f = w_mem w.
+Proof.
+  intro H. apply (create_launches w k t f). unfold create_held in H.
+  destruct (create w k) as [w1 c1]. exact H.
+Qed.
+
 Lemma destroy_fields w e keep eff :
   let w1 := fst (destroy w e keep eff) in
   w_failover w1 = w_failover w /\ w_store w1 = w_store w /\ w_nextfw w1 = w_nextfw w /\
@@ -389,7 +455,7 @@ Qed.
 
 Lemma invS_step w o : is_tamper o = false -> InvS w -> InvS (fst (step w o)).
 Proof.
-  intros T H. destruct o as [k|e|e keep|e|t|t s| |v| |p k| ]; cbn [step]; try discriminate.
+  intros T H. destruct o as [k|e|e keep|e|t|t s| |v| |p k| |k s|t|t]; cbn [step]; try discriminate.
   - destruct (create_fields w k) as [_ [S [X [M _]]]]. unfold InvS. rewrite S, X, M. exact H.
   - exact H.
   - destruct (destroy_fields w e keep true) as [_ [S [X [M _]]]]. unfold InvS. rewrite S, X, M. exact H.
@@ -421,6 +487,9 @@ Proof.
     apply invS_subscribe. left. destruct H1 as [M [S X]]. unfold InvS, crash. cbn. rewrite S.
     repeat split; assumption.
   - destruct (answer_fields w) as [_ [S [X [M _]]]]. unfold InvS. rewrite S, X, M. exact H.
+  - destruct (create_held_fields w k s) as [_ [S [X [M _]]]]. unfold InvS. rewrite S, X, M. exact H.
+  - destruct (alive_at t (w_master w)); exact H.
+  - destruct (alive_at t (w_master w)); exact H.
 Qed.
 
 Lemma invS_boot fo : InvS (boot fo).
@@ -428,7 +497,7 @@ Proof. unfold boot. apply invS_subscribe. right. cbn. split; [reflexivity|discri
 
 Lemma step_launches w o t f : In (CLaunch t f) (snd (step w o)) -> f = w_mem w.
 Proof.
-  destruct o; cbn [step]; try (cbn; intros []; fail).
+  destruct o as [k|e|e keep|e|t1|t1 s| |v| |p k| |k s|t1|t1]; cbn [step]; try (cbn; intros []; fail).
   - apply create_launches.
   - unfold destroy. destruct (negb (memN e (w_envs w))); [intros []|].
     destruct keep; cbn; [intros []|]. intro H. apply in_map_iff in H. destruct H as [x [E _]]. discriminate.
@@ -451,6 +520,9 @@ Proof.
     destruct (memN s recon_kill_states && negb (recon_guarded && in_roster t0 (w_roster w))); cbn.
     + intros [H|[]]. discriminate.
     + intros [].
+  - apply create_held_launches.
+  - destruct (alive_at t1 (w_master w)); intros [].
+  - destruct (alive_at t1 (w_master w)); intros [].
 Qed.
 
 (* the framework id is in the store before any task is launched under it *)
@@ -510,6 +582,22 @@ Proof.
   pose proof (live_ok_launch w1 k H1) as H2. rewrite E2 in H2. exact H2.
 Qed.
 
+Lemma live_ok_master_state ts s m :
+  memN s mesos_live_states = true -> live_ok m -> live_ok (master_state ts s m).
+Proof.
+  intros L H x Hx A. apply master_state_in in Hx. destruct Hx as [y [Hy [_ [_ [Ea [E|E]]]]]].
+  - rewrite E. apply H; [exact Hy|]. rewrite <- Ea. exact A.
+  - rewrite E. exact L.
+Qed.
+
+Lemma live_ok_create_held w k s :
+  live_ok (w_master w) -> live_ok (w_master (fst (create_held w k s))).
+Proof.
+  intro H. unfold create_held. pose proof (live_ok_create w k H) as H1.
+  destruct (create w k) as [w1 c1]. cbn [fst] in *. cbn.
+  apply live_ok_master_state; [apply held_state_live|exact H1].
+Qed.
+
 Lemma live_ok_destroy w e keep eff :
   live_ok (w_master w) -> live_ok (w_master (fst (destroy w e keep eff))).
 Proof.
@@ -528,7 +616,9 @@ Qed.
 
 Lemma live_ok_step w o : live_ok (w_master w) -> live_ok (w_master (fst (step w o))).
 Proof.
-  intro H. destruct o as [k|e|e keep|e|t|t s| |v| |p k| ]; [cbn [step]..|rewrite step_crash|cbn [step]].
+  intro H. destruct o as [k|e|e keep|e|t|t s| |v| |p k| |k s|t|t];
+    [cbn [step]|cbn [step]|cbn [step]|cbn [step]|cbn [step]|cbn [step]|cbn [step]|cbn [step]|cbn [step]
+    |rewrite step_crash|cbn [step]|cbn [step]|cbn [step]|cbn [step]].
   - apply live_ok_create. exact H.
   - exact H.
   - apply live_ok_destroy. exact H.
@@ -548,6 +638,10 @@ Proof.
     destruct (memN s recon_kill_states && negb (recon_guarded && in_roster t (w_roster w))); cbn.
     + apply live_ok_master_kill. exact H.
     + exact H.
+  - apply live_ok_create_held. exact H.
+  - destruct (alive_at t (w_master w)); [|exact H]. cbn.
+    apply live_ok_master_state; [apply running_live|exact H].
+  - destruct (alive_at t (w_master w)); exact H.
 Qed.
 
 Lemma live_ok_run w ops : live_ok (w_master w) -> live_ok (w_master (after w ops)).
@@ -571,41 +665,38 @@ Qed.
 Definition covered (m : list mtask) (ros : list rtask) (pend : list (N * N)) : Prop :=
   forall t, In t m -> mt_alive t = true ->
             (exists s, In (mt_id t, s) pend) \/ in_roster (mt_id t) ros = true.
-Definition active_ok (m : list mtask) (ros : list rtask) : Prop :=
-  forall t r, In t m -> mt_alive t = true -> In r ros -> rt_id r = mt_id t -> rt_active r = true.
 Definition pend_live (p : list (N * N)) : Prop :=
   forall t s, In (t, s) p -> memN s mesos_live_states = true.
 Definition roster_lt (ros : list rtask) (n : N) : Prop := forall r, In r ros -> rt_id r < n.
 
+(* (whether a roster task is ACTIVE plays no part: a roster task of a live environment can be
+   INACTIVE while the master has it alive - launch window, TASK_LOST) *)
 Definition Inv2 (w : world) : Prop :=
-  covered (w_master w) (w_roster w) (w_pending w) /\ active_ok (w_master w) (w_roster w) /\
+  covered (w_master w) (w_roster w) (w_pending w) /\
   pend_live (w_pending w) /\ roster_lt (w_roster w) (w_ntask w).
 
-(* a set of roster tasks leaves the roster, the active ones are killed at the master *)
-Lemma purge_ok m ros ros1 victims pend :
-  (forall v, In v victims -> In v ros) ->
-  (forall r, In r ros1 -> exists q, In q ros /\ rt_id r = rt_id q /\ rt_active r = rt_active q) ->
-  (forall t, in_roster t ros1 = in_roster t ros) ->
-  covered m ros pend -> active_ok m ros ->
-  covered (master_kill (kill_set victims) m) (remove_ids (map rt_id victims) ros1) pend /\
-  active_ok (master_kill (kill_set victims) m) (remove_ids (map rt_id victims) ros1).
+(* doKillTasks sends KILL to every task of the set it drops from the roster, ACTIVE or not (the
+   regenerated kill_inactive = true: without the second loop of doKillTasks a held or lost task
+   would leave the roster alive and unowned, and restart_kills_orphans would be false) *)
+Lemma kill_set_all victims : kill_set victims = map rt_id victims.
 Proof.
-  intros Hv Hr Hin C A. split.
-  - intros x Hx Ax. apply master_kill_in in Hx. destruct Hx as [y [Hy [Ei [_ [_ L]]]]].
-    destruct (L Ax) as [Ay Ny]. rewrite Ei. destruct (C y Hy Ay) as [P|R]; [left; exact P|]. right.
-    destruct (memN (mt_id y) (map rt_id victims)) eqn:V.
-    + exfalso. apply memN_In in V. apply in_map_iff in V. destruct V as [v [Ev Hvv]].
-      assert (Av : rt_active v = true) by (apply (A y v Hy Ay (Hv v Hvv) Ev)).
-      assert (K : In (mt_id y) (kill_set victims)).
-      { apply kill_set_spec. exists v. rewrite Av. auto. }
-      apply memN_In in K. congruence.
-    + rewrite <- Hin in R. apply in_roster_spec in R. destruct R as [r [Hr1 Er]].
-      apply in_roster_spec. exists r. split; [|exact Er]. apply remove_ids_in. split; [exact Hr1|].
-      rewrite Er. exact V.
-  - intros x r Hx Ax Hr1 Er. apply master_kill_in in Hx. destruct Hx as [y [Hy [Ei [_ [_ L]]]]].
-    destruct (L Ax) as [Ay _]. apply remove_ids_in in Hr1. destruct Hr1 as [Hr1 _].
-    destruct (Hr r Hr1) as [q [Hq [Eq Eact]]]. rewrite Eact.
-    apply (A y q Hy Ay Hq). rewrite <- Eq, Er, Ei. reflexivity.
+  assert (K : kill_inactive = true) by reflexivity. unfold kill_set.
+  induction victims as [|v vs IH]; [reflexivity|].
+  cbn [filter]. rewrite K, orb_true_r. cbn [map]. rewrite K in IH. rewrite IH. reflexivity.
+Qed.
+
+(* a set of roster tasks leaves the roster and is killed at the master *)
+Lemma purge_ok m ros ros1 victims pend :
+  (forall t, in_roster t ros1 = in_roster t ros) ->
+  covered m ros pend ->
+  covered (master_kill (kill_set victims) m) (remove_ids (map rt_id victims) ros1) pend.
+Proof.
+  intros Hin C x Hx Ax. apply master_kill_in in Hx. destruct Hx as [y [Hy [Ei [_ [_ L]]]]].
+  destruct (L Ax) as [Ay Ny]. rewrite Ei. destruct (C y Hy Ay) as [P|R]; [left; exact P|]. right.
+  rewrite kill_set_all in Ny.
+  rewrite <- Hin in R. apply in_roster_spec in R. destruct R as [r [Hr1 Er]].
+  apply in_roster_spec. exists r. split; [|exact Er]. apply remove_ids_in. split; [exact Hr1|].
+  rewrite Er. exact Ny.
 Qed.
 
 Lemma roster_lt_remove ts ros n : roster_lt ros n -> roster_lt (remove_ids ts ros) n.
@@ -616,30 +707,48 @@ Proof.
   intros H r Hr. apply release_in in Hr. destruct Hr as [q [Hq [E _]]]. rewrite E. apply H. exact Hq.
 Qed.
 
+Lemma roster_lt_deactivate ts ros n : roster_lt ros n -> roster_lt (roster_deactivate ts ros) n.
+Proof.
+  intros L r Hr. apply roster_deactivate_in in Hr. destruct Hr as [q [Hq [E _]]].
+  rewrite E. apply L. exact Hq.
+Qed.
+
+Lemma roster_lt_activate ts ros n : roster_lt ros n -> roster_lt (roster_activate ts ros) n.
+Proof.
+  intros L r Hr. apply roster_activate_in in Hr. destruct Hr as [q [Hq [E _]]].
+  rewrite E. apply L. exact Hq.
+Qed.
+
+(* the master's view of some tasks and the ACTIVE marks of the roster change: nothing is uncovered *)
+Lemma covered_relabel m m' ros ros' pend :
+  (forall x, In x m' -> exists y, In y m /\ mt_id x = mt_id y /\ mt_alive x = mt_alive y) ->
+  (forall t, in_roster t ros' = in_roster t ros) ->
+  covered m ros pend -> covered m' ros' pend.
+Proof.
+  intros Hm Hr C x Hx Ax. destruct (Hm x Hx) as [y [Hy [Ei Ea]]]. rewrite Ei, Hr.
+  apply (C y Hy). rewrite <- Ea. exact Ax.
+Qed.
+
+Lemma master_state_same ts s m x :
+  In x (master_state ts s m) -> exists y, In y m /\ mt_id x = mt_id y /\ mt_alive x = mt_alive y.
+Proof.
+  intro Hx. apply master_state_in in Hx. destruct Hx as [y [Hy [Ei [_ [Ea _]]]]]. eauto.
+Qed.
+
 Lemma inv2_cleanup w : Inv2 w -> Inv2 (fst (cleanup w)).
 Proof.
-  intros [C [A [P L]]]. unfold Inv2. cbn.
-  set (victims := filter (fun r => match rt_env r with None => true | Some _ => false end) (w_roster w)).
-  destruct (purge_ok (w_master w) (w_roster w) (w_roster w) victims (w_pending w)) as [C1 A1]; auto.
-  - intros v Hv. apply filter_In in Hv. apply Hv.
-  - intros r Hr. exists r. auto.
-  - repeat split; try assumption. apply roster_lt_remove. exact L.
+  intros [C [P L]]. unfold Inv2. cbn. split; [|split; [exact P|apply roster_lt_remove; exact L]].
+  apply (purge_ok _ (w_roster w)); [intro t; reflexivity|exact C].
 Qed.
 
 Lemma inv2_launch w k : Inv2 w -> Inv2 (fst (launch w k)).
 Proof.
-  intros [C [A [P L]]]. unfold Inv2. cbn. repeat split.
+  intros [C [P L]]. unfold Inv2. cbn. repeat split.
   - intros x Hx Ax. apply in_app_or in Hx. destruct Hx as [Hx|Hx].
     + destruct (C x Hx Ax) as [Q|R]; [left; exact Q|]. right. rewrite in_roster_app, R. reflexivity.
     + right. apply in_map_iff in Hx. destruct Hx as [i [E Hi]]. subst x. cbn.
       rewrite in_roster_app. apply orb_true_iff. right. apply in_roster_spec.
       exists (mkR i (Some (w_nenv w)) true). split; [|reflexivity]. apply in_map_iff. eauto.
-  - intros x r Hx Ax Hr Er. apply in_app_or in Hr. destruct Hr as [Hr|Hr].
-    + apply in_app_or in Hx. destruct Hx as [Hx|Hx].
-      * apply (A x r); assumption.
-      * exfalso. apply in_map_iff in Hx. destruct Hx as [i [E Hi]]. subst x. cbn in Er.
-        apply new_ids_spec in Hi. pose proof (L r Hr). lia.
-    + apply in_map_iff in Hr. destruct Hr as [i [E _]]. subst r. reflexivity.
   - exact P.
   - intros r Hr. apply in_app_or in Hr. destruct Hr as [Hr|Hr].
     + pose proof (L r Hr). lia.
@@ -655,63 +764,60 @@ Proof.
   pose proof (inv2_launch w1 k H1) as H2. rewrite E2 in H2. exact H2.
 Qed.
 
+Lemma inv2_create_held w k s : Inv2 w -> Inv2 (fst (create_held w k s)).
+Proof.
+  intro H. unfold create_held. pose proof (inv2_create w k H) as H1.
+  destruct (create w k) as [w1 c1]. cbn [fst] in *. destruct H1 as [C [P L]].
+  unfold Inv2. cbn. split; [|split; [exact P|apply roster_lt_deactivate; exact L]].
+  apply (covered_relabel (w_master w1) _ (w_roster w1)); [|intro t; apply roster_deactivate_in_roster|exact C].
+  intros x Hx. apply (master_state_same _ _ _ _ Hx).
+Qed.
+
 Lemma inv2_destroy w e keep : Inv2 w -> Inv2 (fst (destroy w e keep true)).
 Proof.
   intros H. unfold destroy. destruct (negb (memN e (w_envs w))); [exact H|].
-  destruct H as [C [A [P L]]]. destruct keep; unfold Inv2; cbn.
+  destruct H as [C [P L]]. destruct keep; unfold Inv2; cbn.
   - repeat split; try assumption.
     + intros x Hx Ax. destruct (C x Hx Ax) as [Q|R]; [left; exact Q|]. right.
       rewrite release_in_roster. exact R.
-    + intros x r Hx Ax Hr Er. apply release_in in Hr. destruct Hr as [q [Hq [Ei [Ea _]]]].
-      rewrite Ea. apply (A x q Hx Ax Hq). congruence.
     + apply roster_lt_release. exact L.
-  - destruct (purge_ok (w_master w) (w_roster w) (release e (w_roster w)) (env_tasks e (w_roster w)) (w_pending w))
-      as [C1 A1]; auto.
-    + intros v Hv. apply filter_In in Hv. apply Hv.
-    + intros r Hr. apply release_in in Hr. destruct Hr as [q [Hq [Ei [Ea _]]]]. exists q. auto.
-    + intro t. apply release_in_roster.
-    + repeat split; try assumption. apply roster_lt_remove. apply roster_lt_release. exact L.
+  - split; [|split; [exact P|apply roster_lt_remove; apply roster_lt_release; exact L]].
+    apply (purge_ok _ (w_roster w)); [intro t; apply release_in_roster|exact C].
 Qed.
 
 Lemma kill_one_ok m ros pend pend' t0 :
-  covered m ros pend -> active_ok m ros ->
+  covered m ros pend ->
   (forall t s, In (t, s) pend -> t <> t0 -> In (t, s) pend') ->
-  covered (master_kill [t0] m) (roster_deactivate [t0] ros) pend' /\
-  active_ok (master_kill [t0] m) (roster_deactivate [t0] ros).
+  covered (master_kill [t0] m) (roster_deactivate [t0] ros) pend'.
 Proof.
-  intros C A Hp. split.
-  - intros x Hx Ax. apply master_kill_in in Hx. destruct Hx as [y [Hy [Ei [_ [_ L]]]]].
-    destruct (L Ax) as [Ay Ny]. rewrite Ei. rewrite roster_deactivate_in_roster.
-    destruct (C y Hy Ay) as [[s Q]|R]; [left|right; exact R].
-    exists s. apply Hp; [exact Q|]. intro E. rewrite memN_single in Ny.
-    apply N.eqb_neq in Ny. contradiction.
-  - intros x r Hx Ax Hr Er. apply master_kill_in in Hx. destruct Hx as [y [Hy [Ei [_ [_ L]]]]].
-    destruct (L Ax) as [Ay Ny]. apply roster_deactivate_in in Hr.
-    destruct Hr as [q [Hq [Eq [_ [_ Same]]]]].
-    assert (N0 : memN (rt_id q) [t0] = false) by (rewrite <- Eq, Er, Ei; exact Ny).
-    rewrite (Same N0). apply (A y q Hy Ay Hq). congruence.
-Qed.
-
-Lemma roster_lt_deactivate ts ros n : roster_lt ros n -> roster_lt (roster_deactivate ts ros) n.
-Proof.
-  intros L r Hr. apply roster_deactivate_in in Hr. destruct Hr as [q [Hq [E _]]].
-  rewrite E. apply L. exact Hq.
+  intros C Hp x Hx Ax. apply master_kill_in in Hx. destruct Hx as [y [Hy [Ei [_ [_ L]]]]].
+  destruct (L Ax) as [Ay Ny]. rewrite Ei. rewrite roster_deactivate_in_roster.
+  destruct (C y Hy Ay) as [[s Q]|R]; [left|right; exact R].
+  exists s. apply Hp; [exact Q|]. intro E. rewrite memN_single in Ny.
+  apply N.eqb_neq in Ny. contradiction.
 Qed.
 
 Lemma inv2_answer w : Inv2 w -> Inv2 (fst (answer w)).
 Proof.
-  intros [C [A [P L]]]. unfold answer. destruct (w_pending w) as [|[t0 s] rest] eqn:EP.
+  intros [C [P L]]. unfold answer. destruct (w_pending w) as [|[t0 s] rest] eqn:EP.
   - cbn [fst]. unfold Inv2. rewrite EP. auto.
   - assert (Prest : pend_live rest) by (intros t s' H; apply (P t s'); right; exact H).
     assert (Ks : memN s recon_kill_states = true).
     { apply live_state_is_killed. apply (P t0 s). left. reflexivity. }
     rewrite Ks. cbn [andb].
+    remember (if memN s status_activating then roster_activate [t0] (w_roster w) else w_roster w)
+      as ros' eqn:Eros.
+    assert (IR : forall t, in_roster t ros' = in_roster t (w_roster w)).
+    { intro t. subst ros'. destruct (memN s status_activating); [apply roster_activate_in_roster|reflexivity]. }
+    assert (LT : roster_lt ros' (w_ntask w)).
+    { subst ros'. destruct (memN s status_activating); [apply roster_lt_activate|]; exact L. }
+    clear Eros.
     destruct (negb (recon_guarded && in_roster t0 (w_roster w))) eqn:G; unfold Inv2; cbn.
-    + destruct (kill_one_ok (w_master w) (w_roster w) ((t0, s) :: rest) rest t0) as [C1 A1]; auto.
-      * intros t s' [Q|Q] Ne; [inversion Q; subst; exfalso; apply Ne; reflexivity|exact Q].
-      * repeat split; try assumption. apply roster_lt_deactivate. exact L.
-    + repeat split; try assumption.
-      intros x Hx Ax. destruct (C x Hx Ax) as [[s' [Q|Q]]|R].
+    + split; [|split; [exact Prest|apply roster_lt_deactivate; exact L]].
+      apply (kill_one_ok (w_master w) (w_roster w) ((t0, s) :: rest) rest t0); [exact C|].
+      intros t s' [Q|Q] Ne; [inversion Q; subst; exfalso; apply Ne; reflexivity|exact Q].
+    + split; [|split; [exact Prest|exact LT]].
+      intros x Hx Ax. rewrite IR. destruct (C x Hx Ax) as [[s' [Q|Q]]|R].
       * inversion Q; subst. right. apply negb_false_iff in G. apply andb_true_iff in G. apply G.
       * left. eauto.
       * right. exact R.
@@ -719,25 +825,30 @@ Qed.
 
 Lemma inv2_step w o : tame o = true -> Inv2 w -> Inv2 (fst (step w o)).
 Proof.
-  intros T H. destruct o as [k|e|e keep|e|t|t s| |v| |p k| ]; cbn [step]; try discriminate.
+  intros T H. destruct o as [k|e|e keep|e|t|t s| |v| |p k| |k s|t|t]; cbn [step]; try discriminate.
   - apply inv2_create. exact H.
   - exact H.
   - apply inv2_destroy. exact H.
-  - destruct H as [C [A [P L]]]. unfold Inv2. cbn.
-    destruct (kill_one_ok (w_master w) (w_roster w) (w_pending w) (w_pending w) t) as [C1 A1]; auto.
-    repeat split; try assumption. apply roster_lt_deactivate. exact L.
+  - destruct H as [C [P L]]. unfold Inv2. cbn.
+    split; [|split; [exact P|apply roster_lt_deactivate; exact L]].
+    apply (kill_one_ok (w_master w) (w_roster w) (w_pending w) (w_pending w) t); auto.
   - destruct (memN s mesos_live_states); [|exact H].
-    destruct H as [C [A [P L]]]. unfold Inv2. cbn. repeat split; try assumption.
-    + intros x Hx Ax. apply in_map_iff in Hx. destruct Hx as [y [E Hy]].
-      destruct (N.eqb (mt_id y) t && mt_alive y) eqn:B; subst x; cbn in *.
-      * apply andb_true_iff in B. apply (C y Hy). apply B.
-      * apply (C y Hy Ax).
-    + intros x r Hx Ax Hr Er. apply in_map_iff in Hx. destruct Hx as [y [E Hy]].
-      destruct (N.eqb (mt_id y) t && mt_alive y) eqn:B; subst x; cbn in *.
-      * apply andb_true_iff in B. apply (A y r Hy); try assumption. apply B.
-      * apply (A y r Hy); assumption.
+    destruct H as [C [P L]]. unfold Inv2. cbn. repeat split; try assumption.
+    intros x Hx Ax. apply in_map_iff in Hx. destruct Hx as [y [E Hy]].
+    destruct (N.eqb (mt_id y) t && mt_alive y) eqn:B; subst x; cbn in *.
+    + apply andb_true_iff in B. apply (C y Hy). apply B.
+    + apply (C y Hy Ax).
   - apply inv2_cleanup. exact H.
   - apply inv2_answer. exact H.
+  - apply inv2_create_held. exact H.
+  - destruct (alive_at t (w_master w)); [|exact H]. destruct H as [C [P L]]. unfold Inv2. cbn.
+    split; [|split; [exact P|apply roster_lt_activate; exact L]].
+    apply (covered_relabel (w_master w) _ (w_roster w)); [|intro t'; apply roster_activate_in_roster|exact C].
+    intros x Hx. apply (master_state_same _ _ _ _ Hx).
+  - destruct (alive_at t (w_master w)); [|exact H]. destruct H as [C [P L]]. unfold Inv2. cbn.
+    split; [|split; [exact P|apply roster_lt_deactivate; exact L]].
+    apply (covered_relabel (w_master w) _ (w_roster w)); [|intro t'; apply roster_deactivate_in_roster|exact C].
+    intros x Hx. exists x. auto.
 Qed.
 
 (* a restart establishes the invariant *)
@@ -752,7 +863,6 @@ Proof.
   - intros x Hx Ax. left. exists (mt_state x). unfold snapshot. apply in_map_iff.
     exists x. split; [reflexivity|]. apply filter_In. split; [exact Hx|].
     rewrite Ax, (A x Hx). reflexivity.
-  - intros x r _ _ [].
   - intros t s Hts. unfold snapshot in Hts. apply in_map_iff in Hts. destruct Hts as [x [E Hx]].
     apply filter_In in Hx. destruct Hx as [Hx B]. apply andb_true_iff in B. inversion E; subst.
     apply L1; [exact Hx|apply B].
@@ -791,7 +901,8 @@ Qed.
 Lemma answer_roster_nil w : w_roster w = [] -> w_roster (fst (answer w)) = [].
 Proof.
   intro E. unfold answer. destruct (w_pending w) as [|[t s] rest]; [exact E|].
-  destruct (memN s recon_kill_states && negb (recon_guarded && in_roster t (w_roster w))); cbn;
+  destruct (memN s status_activating);
+    destruct (memN s recon_kill_states && negb (recon_guarded && in_roster t (w_roster w))); cbn;
     rewrite E; reflexivity.
 Qed.
 
@@ -838,17 +949,6 @@ Proof.
 Qed.
 
 (* ================================================================ owned tasks *)
-Definition env_lt (ros : list rtask) (n : N) : Prop :=
-  forall r e, In r ros -> rt_env r = Some e -> e < n.
-Definition master_lt (m : list mtask) (n : N) : Prop := forall t, In t m -> mt_id t < n.
-Definition pend_lt (p : list (N * N)) (n : N) : Prop := forall t s, In (t, s) p -> t < n.
-Definition pend_unowned (w : world) : Prop :=
-  forall t s, In (t, s) (w_pending w) -> owned w t = false.
-
-Definition InvQ (w : world) : Prop :=
-  pend_unowned w /\ pend_lt (w_pending w) (w_ntask w) /\ roster_lt (w_roster w) (w_ntask w) /\
-  env_lt (w_roster w) (w_nenv w) /\ master_lt (w_master w) (w_ntask w).
-
 Definition owned_c (envs : list N) (ros : list rtask) (t : N) : bool :=
   existsb (fun r => N.eqb (rt_id r) t && owned_by envs r) ros.
 
@@ -865,292 +965,6 @@ Proof.
   - intros [r [e [Hr [I [E M]]]]]. exists r. split; [exact Hr|]. rewrite E, M.
     rewrite (proj2 (N.eqb_eq _ _) I). reflexivity.
 Qed.
-
-Lemma owned_c_mono envs envs' ros ros' t :
-  (forall r', In r' ros' -> exists q, In q ros /\ rt_id r' = rt_id q /\
-                                      (forall e, rt_env r' = Some e -> rt_env q = Some e)) ->
-  (forall e, memN e envs' = true -> memN e envs = true) ->
-  owned_c envs' ros' t = true -> owned_c envs ros t = true.
-Proof.
-  intros Hr He H. apply owned_c_spec in H. destruct H as [r' [e [Hr' [I [E M]]]]].
-  destruct (Hr r' Hr') as [q [Hq [Ei Ee]]]. apply owned_c_spec. exists q, e.
-  repeat split; [exact Hq|congruence|apply Ee; exact E|apply He; exact M].
-Qed.
-
-Lemma owned_c_false_mono envs envs' ros ros' t :
-  (forall r', In r' ros' -> exists q, In q ros /\ rt_id r' = rt_id q /\
-                                      (forall e, rt_env r' = Some e -> rt_env q = Some e)) ->
-  (forall e, memN e envs' = true -> memN e envs = true) ->
-  owned_c envs ros t = false -> owned_c envs' ros' t = false.
-Proof.
-  intros Hr He H. destruct (owned_c envs' ros' t) eqn:O; [|reflexivity].
-  rewrite (owned_c_mono envs envs' ros ros' t Hr He O) in H. discriminate.
-Qed.
-
-Lemma remove_env_sub e envs x : memN x (remove_env e envs) = true -> memN x envs = true.
-Proof.
-  intro H. apply memN_In in H. unfold remove_env in H. apply filter_In in H. apply memN_In. apply H.
-Qed.
-
-Lemma env_lt_mono ros ros' n n' :
-  (forall r', In r' ros' -> exists q, In q ros /\ rt_id r' = rt_id q /\
-                                      (forall e, rt_env r' = Some e -> rt_env q = Some e)) ->
-  n <= n' -> env_lt ros n -> env_lt ros' n'.
-Proof.
-  intros Hr Hn H r' e Hr' E. destruct (Hr r' Hr') as [q [Hq [_ Ee]]].
-  pose proof (H q e Hq (Ee e E)). lia.
-Qed.
-
-Lemma roster_lt_mono ros ros' n n' :
-  (forall r', In r' ros' -> exists q, In q ros /\ rt_id r' = rt_id q /\
-                                      (forall e, rt_env r' = Some e -> rt_env q = Some e)) ->
-  n <= n' -> roster_lt ros n -> roster_lt ros' n'.
-Proof.
-  intros Hr Hn H r' Hr'. destruct (Hr r' Hr') as [q [Hq [Ei _]]]. rewrite Ei.
-  pose proof (H q Hq). lia.
-Qed.
-
-Lemma master_lt_kill ts m n : master_lt m n -> master_lt (master_kill ts m) n.
-Proof.
-  intros H x Hx. apply master_kill_in in Hx. destruct Hx as [y [Hy [E _]]]. rewrite E. apply H. exact Hy.
-Qed.
-
-(* sub-roster relations of the model's operations *)
-Definition subros (ros' ros : list rtask) : Prop :=
-  forall r', In r' ros' -> exists q, In q ros /\ rt_id r' = rt_id q /\
-                                     (forall e, rt_env r' = Some e -> rt_env q = Some e).
-
-Lemma subros_refl ros : subros ros ros.
-Proof. intros r H. exists r. auto. Qed.
-
-Lemma subros_trans a b c : subros a b -> subros b c -> subros a c.
-Proof.
-  intros H1 H2 r Hr. destruct (H1 r Hr) as [q [Hq [E1 F1]]]. destruct (H2 q Hq) as [p [Hp [E2 F2]]].
-  exists p. repeat split; [exact Hp|congruence|auto].
-Qed.
-
-Lemma subros_remove ts ros : subros (remove_ids ts ros) ros.
-Proof. intros r Hr. apply remove_ids_in in Hr. exists r. split; [apply Hr|auto]. Qed.
-
-Lemma subros_release e ros : subros (release e ros) ros.
-Proof.
-  intros r Hr. apply release_in in Hr. destruct Hr as [q [Hq [Ei [_ Ee]]]]. exists q.
-  repeat split; [exact Hq|exact Ei|]. intros e' H. apply Ee. exact H.
-Qed.
-
-Lemma subros_deactivate ts ros : subros (roster_deactivate ts ros) ros.
-Proof.
-  intros r Hr. apply roster_deactivate_in in Hr. destruct Hr as [q [Hq [Ei [Ee _]]]]. exists q.
-  repeat split; [exact Hq|exact Ei|]. intros e H. congruence.
-Qed.
-
-(* a step that only shrinks the roster / the environments and keeps pending, counters *)
-Lemma invQ_shrink w w' :
-  InvQ w ->
-  subros (w_roster w') (w_roster w) ->
-  (forall e, memN e (w_envs w') = true -> memN e (w_envs w) = true) ->
-  (forall t s, In (t, s) (w_pending w') -> In (t, s) (w_pending w)) ->
-  w_ntask w' = w_ntask w -> w_nenv w' = w_nenv w ->
-  master_lt (w_master w') (w_ntask w) ->
-  InvQ w'.
-Proof.
-  intros [U [PL [RL [EL ML]]]] Hs He Hp Nt Ne Hm. unfold InvQ. rewrite Nt, Ne. repeat split.
-  - intros t s H. rewrite owned_is_owned_c.
-    apply (owned_c_false_mono (w_envs w) (w_envs w') (w_roster w) (w_roster w') t Hs He).
-    apply (U t s). apply Hp. exact H.
-  - intros t s H. apply (PL t s). apply Hp. exact H.
-  - apply (roster_lt_mono (w_roster w) (w_roster w') (w_ntask w)); [exact Hs|lia|exact RL].
-  - apply (env_lt_mono (w_roster w) (w_roster w') (w_nenv w)); [exact Hs|lia|exact EL].
-  - exact Hm.
-Qed.
-
-Lemma invQ_cleanup w : InvQ w -> InvQ (fst (cleanup w)).
-Proof.
-  intro H. apply (invQ_shrink w); try reflexivity; try exact H; cbn.
-  - apply subros_remove.
-  - auto.
-  - auto.
-  - apply master_lt_kill. apply H.
-Qed.
-
-Lemma invQ_launch w k : InvQ w -> InvQ (fst (launch w k)).
-Proof.
-  intros [U [PL [RL [EL ML]]]]. unfold InvQ. split; [|cbn; repeat split].
-  - intros t s H. cbn in H. rewrite owned_is_owned_c. unfold launch. cbn [fst w_envs w_roster].
-    match goal with |- ?X = false => destruct X eqn:O end;
-      [|reflexivity]. exfalso.
-    apply owned_c_spec in O. destruct O as [r [e [Hr [I [E M]]]]].
-    apply in_app_or in Hr. destruct Hr as [Hr|Hr].
-    + pose proof (EL r e Hr E) as Lt. apply memN_In in M. apply in_app_or in M.
-      destruct M as [M|[M|[]]]; [|lia].
-      assert (X : owned w t = true).
-      { rewrite owned_is_owned_c. apply owned_c_spec. exists r, e. repeat split; try assumption.
-        apply memN_In. exact M. }
-      rewrite (U t s H) in X. discriminate.
-    + apply in_map_iff in Hr. destruct Hr as [i [Ei Hi]]. subst r. cbn in I. subst i.
-      apply new_ids_spec in Hi. pose proof (PL t s H). lia.
-  - intros t s H. pose proof (PL t s H). lia.
-  - intros r Hr. apply in_app_or in Hr. destruct Hr as [Hr|Hr].
-    + pose proof (RL r Hr). lia.
-    + apply in_map_iff in Hr. destruct Hr as [i [Ei Hi]]. subst r. cbn.
-      apply new_ids_spec in Hi. rewrite N2Nat.id in Hi. lia.
-  - intros r e Hr E. apply in_app_or in Hr. destruct Hr as [Hr|Hr].
-    + pose proof (EL r e Hr E). lia.
-    + apply in_map_iff in Hr. destruct Hr as [i [Ei Hi]]. subst r. cbn in E. inversion E. lia.
-  - intros x Hx. apply in_app_or in Hx. destruct Hx as [Hx|Hx].
-    + pose proof (ML x Hx). lia.
-    + apply in_map_iff in Hx. destruct Hx as [i [Ei Hi]]. subst x. cbn.
-      apply new_ids_spec in Hi. rewrite N2Nat.id in Hi. lia.
-Qed.
-
-Lemma invQ_create w k : InvQ w -> InvQ (fst (create w k)).
-Proof.
-  intro H. unfold create. destruct (cleanup w) as [w1 c1] eqn:E1.
-  pose proof (invQ_cleanup w H) as H1. rewrite E1 in H1. cbn [fst] in H1.
-  destruct (launch w1 k) as [w2 c2] eqn:E2.
-  pose proof (invQ_launch w1 k H1) as H2. rewrite E2 in H2. exact H2.
-Qed.
-
-Lemma invQ_destroy w e keep eff : InvQ w -> InvQ (fst (destroy w e keep eff)).
-Proof.
-  intro H. unfold destroy. destruct (negb (memN e (w_envs w))); [exact H|].
-  destruct keep.
-  - apply (invQ_shrink w); try reflexivity; try exact H; cbn.
-    + apply subros_release.
-    + apply remove_env_sub.
-    + auto.
-    + apply H.
-  - apply (invQ_shrink w); try reflexivity; try exact H; cbn.
-    + apply (subros_trans _ (release e (w_roster w))); [apply subros_remove|apply subros_release].
-    + apply remove_env_sub.
-    + auto.
-    + destruct eff; [apply master_lt_kill|]; apply H.
-Qed.
-
-Lemma invQ_prephase w p k : InvQ w -> InvQ (fst (prephase w p k)).
-Proof.
-  intro H. destruct p; cbn [prephase].
-  - exact H.
-  - pose proof (invQ_cleanup w H) as H1. destruct H1 as [U [PL [RL [EL ML]]]].
-    unfold InvQ. cbn in *. repeat split; try assumption.
-    intros r e0 Hr E. pose proof (EL r e0 Hr E). lia.
-  - apply invQ_create. exact H.
-  - apply invQ_create. exact H.
-Qed.
-
-Lemma snapshot_lt f m n : master_lt m n -> pend_lt (snapshot f m) n.
-Proof.
-  intros H t s Hts. unfold snapshot in Hts. apply in_map_iff in Hts. destruct Hts as [x [E Hx]].
-  apply filter_In in Hx. inversion E; subst. apply H. apply Hx.
-Qed.
-
-Lemma invQ_subscribe w :
-  InvQ w -> existsb (owned_by (w_envs w)) (w_roster w) = false -> InvQ (fst (subscribe w)).
-Proof.
-  intros [U [PL [RL [EL ML]]]] Hn. unfold InvQ. split; [|unfold subscribe; cbn; repeat split; try assumption].
-  - intros t s _. rewrite owned_is_owned_c. unfold subscribe. cbn [fst w_envs w_roster].
-    destruct (owned_c (w_envs w) (w_roster w) t) eqn:O; [|reflexivity]. exfalso.
-    unfold owned_c in O. apply existsb_exists in O. destruct O as [r [Hr B]].
-    apply andb_true_iff in B. destruct B as [_ B].
-    assert (X : existsb (owned_by (w_envs w)) (w_roster w) = true) by (apply existsb_exists; eauto).
-    congruence.
-  - apply snapshot_lt. exact ML.
-Qed.
-
-Lemma invQ_step w o :
-  InvQ w ->
-  (o = OReconnect -> existsb (owned_by (w_envs w)) (w_roster w) = false) ->
-  InvQ (fst (step w o)).
-Proof.
-  intros H Hr. destruct o as [k|e|e keep|e|t|t s| |v| |p k| ]; [cbn [step]..|rewrite step_crash|cbn [step]].
-  - apply invQ_create. exact H.
-  - exact H.
-  - apply invQ_destroy. exact H.
-  - apply invQ_destroy. exact H.
-  - apply (invQ_shrink w); try reflexivity; try exact H; cbn.
-    + apply subros_deactivate.
-    + auto.
-    + auto.
-    + apply master_lt_kill. apply H.
-  - destruct (memN s mesos_live_states); [|exact H].
-    apply (invQ_shrink w); try reflexivity; try exact H; cbn.
-    + apply subros_refl.
-    + auto.
-    + auto.
-    + intros x Hx. apply in_map_iff in Hx. destruct Hx as [y [E Hy]].
-      destruct (N.eqb (mt_id y) t && mt_alive y); subst x; cbn; apply H; exact Hy.
-  - apply invQ_cleanup. exact H.
-  - apply (invQ_shrink w); try reflexivity; try exact H; cbn; auto.
-    + apply subros_refl.
-    + apply H.
-  - apply invQ_subscribe; [exact H|]. apply Hr. reflexivity.
-  - pose proof (invQ_prephase w p k H) as H1. destruct (prephase w p k) as [w1 c1]. cbn [fst] in H1.
-    destruct (subscribe (crash w1)) as [w2 c2] eqn:E2. cbn [fst].
-    replace w2 with (fst (subscribe (crash w1))) by (rewrite E2; reflexivity).
-    apply invQ_subscribe; [|reflexivity].
-    destruct H1 as [U [PL [RL [EL ML]]]]. unfold InvQ, crash. cbn.
-    split; [|split; [|split; [|split]]].
-    + intros t s [].
-    + intros t s [].
-    + intros r [].
-    + intros r e [].
-    + exact ML.
-  - unfold answer. destruct (w_pending w) as [|[t0 s] rest] eqn:EP; [exact H|].
-    destruct (memN s recon_kill_states && negb (recon_guarded && in_roster t0 (w_roster w))).
-    + apply (invQ_shrink w); try reflexivity; try exact H; cbn.
-      * apply subros_deactivate.
-      * auto.
-      * intros t s' Q. rewrite EP. right. exact Q.
-      * apply master_lt_kill. apply H.
-    + apply (invQ_shrink w); try reflexivity; try exact H; cbn.
-      * apply subros_refl.
-      * auto.
-      * intros t s' Q. rewrite EP. right. exact Q.
-      * apply H.
-Qed.
-
-Lemma invQ_boot fo : InvQ (boot fo).
-Proof.
-  unfold InvQ, boot. cbn. split; [|split; [|split; [|split]]].
-  - intros t s [].
-  - intros t s [].
-  - intros r [].
-  - intros r e [].
-  - intros t [].
-Qed.
-
-Lemma spares_owned_from w ops :
-  InvQ w -> reconnects_unowned w ops = true -> spares_owned w ops = true.
-Proof.
-  revert w. induction ops as [|o ops IH]; intros w H R; [reflexivity|].
-  cbn [reconnects_unowned] in R. apply andb_true_iff in R. destruct R as [R1 R2].
-  cbn [spares_owned]. apply andb_true_iff. split.
-  - destruct o; try reflexivity. apply negb_true_iff. unfold hits_owned.
-    destruct (w_pending w) as [|[t s] rest] eqn:EP; [reflexivity|].
-    destruct H as [U _]. rewrite (U t s); [apply andb_false_r|]. rewrite EP. left. reflexivity.
-  - apply IH; [|exact R2]. apply invQ_step; [exact H|]. intro E. subst o.
-    apply negb_true_iff in R1. exact R1.
-Qed.
-
-(* partial: as long as every re-established connection finds nothing owned in the roster, no
-   reconciliation answer ever kills an owned task -- at any crash point, for every interleaving *)
-Lemma spares_owned_partial fo ops :
-  reconnects_unowned (boot fo) ops = true -> spares_owned (boot fo) ops = true.
-Proof. apply spares_owned_from. apply invQ_boot. Qed.
-
-Lemma no_reconnect_unowned ops : forall w, no_reconnect ops = true -> reconnects_unowned w ops = true.
-Proof.
-  induction ops as [|o ops IH]; intros w H; [reflexivity|].
-  unfold no_reconnect in H. cbn in H. apply andb_true_iff in H. destruct H as [H1 H2].
-  cbn [reconnects_unowned]. apply andb_true_iff. split.
-  - destruct o; try reflexivity. discriminate.
-  - apply IH. exact H2.
-Qed.
-
-(* restarts alone never cost an owned task *)
-Lemma restart_spares_owned fo ops :
-  no_reconnect ops = true -> spares_owned (boot fo) ops = true.
-Proof. intro H. apply spares_owned_partial. apply no_reconnect_unowned. exact H. Qed.
 
 (* the repaired rule (roster consulted) satisfies the full statement *)
 Lemma guarded_spares_owned w ops : recon_guarded = true -> spares_owned w ops = true.
@@ -1282,8 +1096,36 @@ Proof.
   rewrite memN_single, Ne. reflexivity.
 Qed.
 
+(* the roster keeps its tasks, in order, with their locks; none loses its ACTIVE mark *)
+Definition keeps (ros ros' : list rtask) : Prop :=
+  Forall2 (fun r r' => rt_id r' = rt_id r /\ rt_env r' = rt_env r /\
+                       (rt_active r = true -> rt_active r' = true)) ros ros'.
+
+Lemma keeps_refl ros : keeps ros ros.
+Proof. induction ros; constructor; auto. Qed.
+
+Lemma keeps_trans a b c : keeps a b -> keeps b c -> keeps a c.
+Proof.
+  intro H. revert c. induction H as [|x y a b [I [E A]] H IH]; intros c Hc; inversion Hc; subst.
+  - constructor.
+  - constructor; [|apply IH; assumption].
+    destruct H2 as [I2 [E2 A2]]. repeat split; [congruence|congruence|auto].
+Qed.
+
+Lemma keeps_activate ts ros : keeps ros (roster_activate ts ros).
+Proof.
+  induction ros as [|q ros IH]; cbn; constructor; [|exact IH].
+  destruct (memN (rt_id q) ts); cbn; auto.
+Qed.
+
+Lemma keeps_in_roster ros ros' t : keeps ros ros' -> in_roster t ros' = in_roster t ros.
+Proof.
+  intro H. induction H as [|x y a b [I _] H IH]; [reflexivity|].
+  unfold in_roster in *. cbn. rewrite I, IH. reflexivity.
+Qed.
+
 Definition untouched (w w' : world) (cs : list call) : Prop :=
-  w_roster w' = w_roster w /\ w_envs w' = w_envs w /\
+  keeps (w_roster w) (w_roster w') /\ w_envs w' = w_envs w /\
   (forall x, In x (w_master w) -> in_roster (mt_id x) (w_roster w) = true -> In x (w_master w')) /\
   (forall t, In (CKill t) cs -> in_roster t (w_roster w) = false).
 
@@ -1291,17 +1133,22 @@ Lemma answer_untouched w : untouched w (fst (answer w)) (snd (answer w)).
 Proof.
   assert (G : recon_guarded = true) by reflexivity.
   unfold untouched, answer. destruct (w_pending w) as [|[t s] rest].
-  { cbn. repeat split; auto. intros t []. }
+  { cbn. split; [apply keeps_refl|]. repeat split; auto. intros t []. }
   rewrite G. cbn [andb].
+  remember (if memN s status_activating then roster_activate [t] (w_roster w) else w_roster w)
+    as ros' eqn:Eros.
+  assert (KP : keeps (w_roster w) ros').
+  { subst ros'. destruct (memN s status_activating); [apply keeps_activate|apply keeps_refl]. }
+  clear Eros.
   destruct (in_roster t (w_roster w)) eqn:IR.
-  - rewrite andb_false_r. cbn. repeat split; auto. intros t' [].
+  - rewrite andb_false_r. cbn. split; [exact KP|]. repeat split; auto. intros t' [].
   - cbn [negb]. rewrite andb_true_r. destruct (memN s recon_kill_states); cbn.
-    + split; [apply roster_deactivate_absent; exact IR|]. split; [reflexivity|]. split.
+    + split; [rewrite (roster_deactivate_absent _ _ IR); apply keeps_refl|]. split; [reflexivity|]. split.
       * intros x Hx Rx. apply master_kill_spares; [exact Hx|].
         destruct (N.eqb (mt_id x) t) eqn:E; [|reflexivity].
         apply N.eqb_eq in E. rewrite E, IR in Rx. discriminate.
       * intros t' [E|[]]. inversion E; subst. exact IR.
-    + repeat split; auto. intros t' [].
+    + split; [exact KP|]. repeat split; auto. intros t' [].
 Qed.
 
 Lemma answer_kills_unrostered w t :
@@ -1318,15 +1165,15 @@ Lemma drain_untouched n : forall w,
   untouched w (fst (run w (repeat OAnswer n))) (snd (run w (repeat OAnswer n))).
 Proof.
   induction n as [|n IH]; intro w.
-  - cbn. unfold untouched. repeat split; auto. intros t [].
+  - cbn. unfold untouched. split; [apply keeps_refl|]. repeat split; auto. intros t [].
   - cbn [repeat run step]. pose proof (answer_untouched w) as A.
     destruct (answer w) as [w1 c1]. cbn [fst snd] in A. specialize (IH w1).
     destruct (run w1 (repeat OAnswer n)) as [w2 c2]. cbn [fst snd] in IH |- *.
     destruct A as [R1 [E1 [M1 K1]]]. destruct IH as [R2 [E2 [M2 K2]]].
-    unfold untouched. split; [rewrite R2; exact R1|]. split; [rewrite E2; exact E1|]. split.
-    + intros x Hx Rx. apply M2; [apply M1; assumption|rewrite R1; exact Rx].
+    unfold untouched. split; [apply (keeps_trans _ _ _ R1 R2)|]. split; [rewrite E2; exact E1|]. split.
+    + intros x Hx Rx. apply M2; [apply M1; assumption|rewrite (keeps_in_roster _ _ _ R1); exact Rx].
     + intros t Ht. apply in_app_or in Ht. destruct Ht as [Ht|Ht]; [apply K1; exact Ht|].
-      rewrite <- R1. apply K2. exact Ht.
+      rewrite <- (keeps_in_roster _ _ t R1). apply K2. exact Ht.
 Qed.
 
 (* a dropped and re-established connection, with all its reconciliation answers processed *)
@@ -1343,8 +1190,18 @@ Proof.
   pose proof (drain_untouched (length (w_pending w1)) w1) as D.
   destruct (run w1 (repeat OAnswer (length (w_pending w1)))) as [w2 c2]. cbn [fst snd] in D |- *.
   destruct D as [R2 [E2 [M2 K2]]]. unfold untouched.
-  split; [rewrite R2; exact R1|]. split; [rewrite E2; exact E1|]. split.
+  split; [rewrite <- R1; exact R2|]. split; [rewrite E2; exact E1|]. split.
   - intros x Hx Rx. apply M2; [rewrite M1; exact Hx|rewrite R1; exact Rx].
   - intros t Ht. apply in_app_or in Ht. destruct Ht as [Ht|Ht]; [destruct (K1 t Ht)|].
     rewrite <- R1. apply K2. exact Ht.
 Qed.
+
+(* the status a roster task has plays no part in that: in the launch window (tasks accepted and in
+   the roster, first TASK_RUNNING not delivered) and after a TASK_LOST the tasks are INACTIVE,
+   alive at the master and owned; a reconnection there sends no KILL at all *)
+Lemma status_rule_shape :
+  memN mesos_running status_activating = true /\
+  memN mesos_lost status_deactivating = true /\ memN mesos_failed status_deactivating = true /\
+  forallb (fun s => negb (memN s status_deactivating)) mesos_live_states = true /\
+  filter (fun s => memN s status_activating) mesos_live_states = [mesos_running].
+Proof. vm_compute. repeat split; reflexivity. Qed.
